@@ -69,6 +69,7 @@ func runC15(p *Prog, r *Report) {
 	c.capabilities()
 	c.lubBoth()
 	c.closure()
+	c.conformanceVisitsAll()
 }
 
 func (c *c15ctx) anchors() bool {
@@ -1151,5 +1152,80 @@ func (c *c15ctx) operandKinds() {
 	}
 	if n < 25 {
 		r.Undec(rule, "validate:operand-table", "-", "only "+itoa(n)+" operand positions were compared (expected ≥ 25)")
+	}
+}
+
+// R15.7: conformance checks look at every member that is present. In a loop over the *schema's* members that looks each
+// one up in the value (comma-ok) and hands present ones to the recursive checker, the only way to move on to the next
+// member without calling the checker is the "absent" edge of that lookup. A `continue` for optional members (whether
+// present or not) lets a present attribute of the wrong type conform — and a `has`-guarded access then fails at run time.
+func (c *c15ctx) conformanceVisitsAll() {
+	p, r := c.p, c.r
+	const rule = "R15.7-conformance-visits-present"
+	n := 0
+	for _, fn := range p.Funcs {
+		if fnPkgPath(fn) != pValidate || fn.Parent() != nil {
+			continue
+		}
+		// value conformance functions: take a types.Value (or Record) and a resolved schema type, return error
+		sig := fn.Signature
+		if sig.Results().Len() != 1 || !isErrorType(sig.Results().At(0).Type()) || sig.Params().Len() != 2 {
+			continue
+		}
+		p0 := namedOf(sig.Params().At(0).Type())
+		p1 := namedOf(sig.Params().At(1).Type())
+		if p0 == nil || p1 == nil || p0.Obj().Pkg() == nil || p1.Obj().Pkg() == nil || p0.Obj().Pkg().Path() != pTypes || p1.Obj().Pkg().Path() != pResolved {
+			continue
+		}
+		loops := loopsOf(fn)
+		for _, l := range loops {
+			// a comma-ok lookup on the value inside the loop, and a call to a conformance function
+			var okIf *ssa.If
+			var check ssa.CallInstruction
+			for b := range l.Body {
+				if innermostLoop(loops, b) != l {
+					continue
+				}
+				for _, in := range b.Instrs {
+					if cl, ok := in.(ssa.CallInstruction); ok {
+						g := cl.Common().StaticCallee()
+						if g != nil && fnPkgPath(g) == pValidate && g.Signature.Results().Len() == 1 && isErrorType(g.Signature.Results().At(0).Type()) && g.Signature.Params().Len() == 2 {
+							check = cl
+						}
+						if g != nil && fnPkgPath(g) == pTypes && g.Name() == "Get" {
+							if call, ok := cl.(*ssa.Call); ok {
+								if ex := extractOf(call, 1); ex != nil {
+									for _, rf := range *ex.Referrers() {
+										if iff, ok := rf.(*ssa.If); ok {
+											okIf = iff
+										}
+									}
+								}
+							}
+						}
+					}
+				}
+			}
+			if okIf == nil || check == nil {
+				continue
+			}
+			n++
+			absent := okIf.Block().Succs[1]
+			bad := false
+			for _, pred := range l.Header.Preds {
+				if !l.Body[pred] {
+					continue
+				}
+				if check.Block().Dominates(pred) || absent.Dominates(pred) || pred == absent {
+					continue
+				}
+				bad = true
+			}
+			r.Check(!bad, rule, fnQual(fn)+":member-loop", p.pos(check.Pos()), "a member is skipped only when it is absent from the value",
+				"in "+fnShort(fn)+" the loop over the schema's members can go on to the next member without checking the current one although it is present in the value (a path to the next iteration avoids both the check and the lookup's \"absent\" edge): a present member of the wrong type conforms, and a guarded access to it fails at run time with a type error")
+		}
+	}
+	if n == 0 {
+		r.Undec(rule, "validate:member-loops", "-", "no member-wise conformance loop was recognised (anchors vanished)")
 	}
 }
